@@ -53,6 +53,7 @@ ClientInit ==
    mk |-> [p \in Parts |-> -1], dirty |-> {}, ctx |-> FALSE, pcancel |-> FALSE, closed |-> "no",
    calls |-> 0, hb |-> "off", retries |-> 0, trig |-> 0, h |-> NoHandler, ftry |-> 0, ac |-> 0, j1 |-> FALSE,
    nj |-> 0, ns |-> 0,          \* join / sync requests sent in the current Consume call
+   cco |-> 0, oco |-> 0,        \* coordinator cached by the client / by the session's offset manager (0 = none: looked up on use)
    df |-> -1]                   \* partition whose claim could not start in this call (data-plane fault)
 
 ResetEvent(c) ==
@@ -64,7 +65,8 @@ Init ==
   /\ cfg \in [initial : Initials, auto : Autos, committed : CommitChoices, rretry : RetryMaxes, oretry : OffsetRetries]
   /\ co = [gs |-> "Empty", gen |-> 0, mem |-> {}, own |-> <<>>, num |-> <<>>, joined |-> {}, leader |-> "",
            asg |-> <<>>, store |-> [p \in Parts |-> cfg.committed[p + 1]], nid |-> 0,
-           hi |-> [p \in Parts |-> 0], anySetup |-> FALSE, dfb |-> DataFaults]
+           hi |-> [p \in Parts |-> 0], anySetup |-> FALSE, dfb |-> DataFaults,
+           loc |-> 1]                  \* broker that is the group's coordinator (the group state moves along with it)
   /\ cl = [c \in Clients |-> ClientInit]
   /\ fb = FaultBudget
   /\ tb = TrigBudget
@@ -130,6 +132,14 @@ AfterJoinSyncError(x, k) ==
          ELSE [x EXCEPT !.retries = @ - 1, !.pc = "join"]
     [] OTHER -> [x EXCEPT !.pc = "reterr"]
 
+\* the broker a join / sync / heartbeat / leave of the client goes to, and whether it is not the coordinator (any more)
+Target(x) == IF x.cco = 0 THEN co.loc ELSE x.cco
+Stale(x) == Target(x) # co.loc
+\* a NOT_COORDINATOR answer to join / sync: backoff + RefreshCoordinator while the retry budget lasts
+AfterNotCoord(x) ==
+  IF x.retries <= 0 \/ x.closed # "no" THEN [x EXCEPT !.pc = "reterr", !.cco = Target(x)]
+  ELSE [x EXCEPT !.retries = @ - 1, !.pc = "join", !.cco = co.loc]
+
 InRange(o) == o >= 0 /\ o <= LogLen
 NextOffset(x, p) == IF x.mk[p] >= 0 THEN x.mk[p] ELSE cfg.initial
 StartOffset(x, p) ==
@@ -139,7 +149,8 @@ ResolveM(init) == IF init >= 0 THEN init ELSE IF init = -2 THEN 0 ELSE LogLen
 
 \* a session object for client x after a successful sync with assignment A
 NewSession(x, A, g) ==
-  [x EXCEPT !.pc = "setup", !.sid = x.mid, !.claims = A, !.hb = "on", !.ctx = x.pcancel,
+  \* (the new offset manager looks the coordinator up afresh: client.RefreshCoordinator)
+  [x EXCEPT !.pc = "setup", !.sid = x.mid, !.claims = A, !.hb = "on", !.ctx = x.pcancel, !.cco = g.loc, !.oco = g.loc,
             !.cst = [p \in Parts |-> "none"], !.mk = [p \in Parts |-> IF p \in A THEN g.store[p] ELSE -1],
             !.dirty = {}, !.got = [p \in Parts |-> 0], !.ftry = 0, !.ac = 0]
 
@@ -155,7 +166,8 @@ ConsumeCall(c) ==
           /\ script' = AppendSess(c, NoHandler)
      ELSE \E h \in Handlers :
           /\ cl' = [cl EXCEPT ![c].calls = @ + 1, ![c].pc = "join", ![c].retries = cfg.rretry,
-                              ![c].h = h, ![c].trig = 0, ![c].nj = 0, ![c].ns = 0, ![c].df = -1]
+                              ![c].h = h, ![c].trig = 0, ![c].nj = 0, ![c].ns = 0, ![c].df = -1,
+                              ![c].cco = IF x.cco = 0 THEN co.loc ELSE @]     \* client.Coordinator: cached, else looked up
           /\ Emitting(<<[ev |-> "consume_call", c |-> c]>>)
           /\ script' = AppendSess(c, h)
   /\ UNCHANGED <<cfg, co, fb, tb>>
@@ -163,9 +175,17 @@ ConsumeCall(c) ==
 JoinReqEv(c) == [ev |-> "join_req", c |-> c, mid |-> cl[c].mid]
 JoinErrEv(c, k) == [ev |-> "join_resp", c |-> c, err |-> k, mid |-> "", gen |-> -1]
 
+JoinStale(c) ==
+  LET x == cl[c] IN
+  /\ x.pc = "join" /\ Stale(x)
+  /\ cl' = [cl EXCEPT ![c] = [AfterNotCoord(x) EXCEPT !.nj = 1]]
+  /\ Emitting(<<[ev |-> "join_req", c |-> c, mid |-> x.mid],
+                [ev |-> "join_resp", c |-> c, err |-> "notcoord", mid |-> "", gen |-> -1, stale |-> TRUE]>>)
+  /\ UNCHANGED <<cfg, co, fb, tb, script>>
+
 JoinScripted(c) ==
   LET x == cl[c] IN
-  /\ x.pc = "join" /\ fb > 0
+  /\ x.pc = "join" /\ fb > 0 /\ ~Stale(x)
   /\ \E k \in ReqKinds :
        /\ co' = IF k = "unknown" THEN Remove(co, x.mid) ELSE co
        /\ cl' = [cl EXCEPT ![c] = [AfterJoinSyncError(x, k) EXCEPT !.nj = 1]]
@@ -185,7 +205,7 @@ StartClass(c) ==
 
 JoinGenuine(c) ==
   LET x == cl[c] IN
-  /\ x.pc = "join"
+  /\ x.pc = "join" /\ ~Stale(x)
   /\ script' = IF x.j1 \/ (x.mid # "" /\ x.mid \notin co.mem) THEN RecJ(script, c, "ok")
                 ELSE [RecJ(script, c, "ok") EXCEPT ![c].start = StartClass(c)]
   /\ IF x.mid # "" /\ x.mid \notin co.mem
@@ -224,9 +244,16 @@ SyncReqEv(c) == [ev |-> "sync_req", c |-> c, mid |-> cl[c].mid, gen |-> cl[c].sg
 SyncErrEv(c, k) == [ev |-> "sync_resp", c |-> c, err |-> k, claims |-> <<>>]
 SyncOkEv(c, A) == [ev |-> "sync_resp", c |-> c, err |-> "ok", claims |-> SeqOfParts(A)]
 
+SyncStale(c) ==
+  LET x == cl[c] IN
+  /\ x.pc = "sync" /\ Stale(x)
+  /\ cl' = [cl EXCEPT ![c] = [AfterNotCoord(x) EXCEPT !.ns = 1]]
+  /\ Emitting(<<SyncReqEv(c), [ev |-> "sync_resp", c |-> c, err |-> "notcoord", claims |-> <<>>, stale |-> TRUE]>>)
+  /\ UNCHANGED <<cfg, co, fb, tb, script>>
+
 SyncScripted(c) ==
   LET x == cl[c] IN
-  /\ x.pc = "sync" /\ fb > 0
+  /\ x.pc = "sync" /\ fb > 0 /\ ~Stale(x)
   /\ \E k \in ReqKinds :
        /\ co' = IF k = "unknown" THEN Remove(co, x.mid) ELSE co
        /\ cl' = [cl EXCEPT ![c] = [AfterJoinSyncError(x, k) EXCEPT !.ns = 1]]
@@ -238,7 +265,7 @@ SyncScripted(c) ==
 SyncGenuine(c) ==
   LET x == cl[c]
       v == Verdict(co, x.mid, x.sgen, "sync") IN
-  /\ x.pc = "sync"
+  /\ x.pc = "sync" /\ ~Stale(x)
   /\ script' = RecS(script, c, "ok")
   /\ IF v # "ok"
      THEN /\ cl' = [cl EXCEPT ![c] = [AfterJoinSyncError(x, v) EXCEPT !.ns = 1]]
@@ -360,15 +387,22 @@ CleanupExit(c) ==
 CommitReq(c, k, final) ==
   LET x == cl[c]
       gen == IF Bug = "stale_commit_identity" THEN x.sgen - 1 ELSE x.sgen
-      v == IF k = "ok" THEN Verdict(co, x.sid, x.sgen, "commit") ELSE k
+      \* the offset manager's cached coordinator (looked up afresh after it was released)
+      tgt == IF x.oco = 0 THEN co.loc ELSE x.oco
+      stale == tgt # co.loc
+      v == IF stale THEN "notcoord" ELSE IF k = "ok" THEN Verdict(co, x.sid, x.sgen, "commit") ELSE k
       ok == v = "ok"
       blocks == [i \in 1..Len(SeqOfParts(x.dirty)) |-> <<SeqOfParts(x.dirty)[i], x.mk[SeqOfParts(x.dirty)[i]]>>]
-      g0 == IF k = "unknown" THEN Remove(co, x.sid) ELSE co IN
+      g0 == IF k = "unknown" /\ ~stale THEN Remove(co, x.sid) ELSE co IN
+  /\ stale => k = "ok"
   /\ co' = IF ok THEN [g0 EXCEPT !.store = [p \in Parts |-> IF p \in x.dirty THEN x.mk[p] ELSE @[p]]] ELSE g0
   /\ cl' = [cl EXCEPT ![c].dirty = IF ok THEN {} ELSE @,
+                      \* handleResponse: NOT_COORDINATOR releases the cached coordinator (the next attempt looks it up)
+                      ![c].oco = IF v = "notcoord" /\ Bug # "commit_keeps_stale_coordinator" THEN 0 ELSE tgt,
+                      ![c].cco = IF x.oco = 0 THEN co.loc ELSE @,
                       ![c].pc = IF ~final THEN @ ELSE IF ok \/ x.ftry >= cfg.oretry THEN "hbstop" ELSE "final",
                       ![c].ftry = IF final THEN @ + 1 ELSE @, ![c].ac = IF final THEN @ ELSE @ + 1]
-  /\ Emitting(<<[ev |-> "commit", c |-> c, mid |-> x.sid, gen |-> gen, err |-> v, blocks |-> blocks, applied |-> ok]>>)
+  /\ Emitting(<<[ev |-> "commit", c |-> c, mid |-> x.sid, gen |-> gen, err |-> v, blocks |-> blocks, applied |-> ok, stale |-> stale]>>)
   /\ script' = RecC(script, c, k)
 
 AutoCommit(c) ==
@@ -407,14 +441,14 @@ RetErr(c) ==
 (* heartbeats: only verdicts change state; an OK heartbeat is a stuttering step *)
 HbEv(c, err) ==
   [ev |-> "hb", c |-> c, mid |-> cl[c].sid,
-   gen |-> IF Bug = "stale_hb_identity" THEN cl[c].sgen - 1 ELSE cl[c].sgen, err |-> err]
+   gen |-> IF Bug = "stale_hb_identity" THEN cl[c].sgen - 1 ELSE cl[c].sgen, err |-> err, stale |-> FALSE]
 
 HbGenuine(c) ==
   LET x == cl[c]
-      v == Verdict(co, x.sid, x.sgen, "hb") IN
+      v == IF Stale(x) THEN "notcoord" ELSE Verdict(co, x.sid, x.sgen, "hb") IN
   /\ x.hb = "on" /\ x.pc \in SessionPcs /\ v # "ok"
   /\ cl' = [cl EXCEPT ![c].hb = "dead", ![c].ctx = TRUE]
-  /\ Emitting(<<HbEv(c, v)>>)
+  /\ Emitting(<<[HbEv(c, v) EXCEPT !.stale = Stale(x)]>>)
   /\ UNCHANGED <<cfg, co, fb, tb, script>>
 
 -----------------------------------------------------------------------------
@@ -458,7 +492,7 @@ TrigHb(c) ==
   LET x == cl[c]
       at == TrigPoint(c) IN
   /\ CanTrig(c) /\ x.hb = "on" /\ x.pc \in {"setup", "insetup", "run"} /\ ~x.ctx
-  /\ Verdict(co, x.sid, x.sgen, "hb") = "ok"
+  /\ Verdict(co, x.sid, x.sgen, "hb") = "ok" /\ ~Stale(x)
   /\ \E k \in HbKinds :
        LET err == KErrOfHb(k) IN
        /\ co' = CASE k = "hb_rebalance" -> [co EXCEPT !.gs = "Preparing"]
@@ -467,6 +501,20 @@ TrigHb(c) ==
        /\ Emitting(IF err = "conn" THEN [i \in 1..(HbRetry + 1) |-> HbEv(c, "conn")] ELSE <<HbEv(c, err)>>)
        /\ script' = RecTrig(script, c, k, at)
   /\ cl' = [cl EXCEPT ![c].hb = "dead", ![c].ctx = TRUE, ![c].trig = 1]
+  /\ tb' = tb - 1
+  /\ UNCHANGED <<cfg, fb>>
+
+\* environment: the group's coordinator migrates to the other broker while a session runs (optionally followed at once by
+\* an application cancel); FindCoordinator answers the new broker from now on, the old one answers NOT_COORDINATOR
+TrigMove(c, withCancel) ==
+  LET x == cl[c]
+      at == TrigPoint(c)
+      kind == IF withCancel THEN "coord_move_cancel" ELSE "coord_move" IN
+  /\ kind \in TrigKinds /\ CanTrig(c) /\ x.pc \in {"insetup", "run"} /\ ~x.ctx /\ ~x.pcancel /\ x.closed = "no"
+  /\ co' = [co EXCEPT !.loc = 3 - @]
+  /\ cl' = [cl EXCEPT ![c].trig = 1, ![c].pcancel = IF withCancel THEN TRUE ELSE @, ![c].ctx = IF withCancel THEN TRUE ELSE @]
+  /\ Emitting(<<[ev |-> "coord_move"]>> \o (IF withCancel THEN <<[ev |-> "cancel", c |-> c]>> ELSE <<>>))
+  /\ script' = RecTrig(script, c, kind, at)
   /\ tb' = tb - 1
   /\ UNCHANGED <<cfg, fb>>
 
@@ -488,8 +536,9 @@ CloseLeave(c) ==
           /\ Emitting(<<[ev |-> "close_ret", c |-> c, err |-> ""]>>)
           /\ UNCHANGED <<fb, script>>
      ELSE \E k \in {"ok"} \cup (IF fb > 0 THEN LeaveKinds ELSE {}) :
-          LET v == IF k = "ok" /\ x.mid \notin co.mem THEN "unknown" ELSE k
+          LET v == IF Stale(x) THEN "notcoord" ELSE IF k = "ok" /\ x.mid \notin co.mem THEN "unknown" ELSE k
               g == IF v \in {"ok", "unknown"} THEN Remove(co, x.mid) ELSE co IN
+          /\ Stale(x) => k = "ok"
           /\ co' = RemoveAll(g, MidsOf(g, c))
           /\ Emitting(<<[ev |-> "leave", c |-> c, mid |-> x.mid, err |-> v], [ev |-> "close_ret", c |-> c, err |-> ""]>>)
           /\ fb' = IF k = "ok" THEN fb ELSE fb - 1
@@ -501,7 +550,7 @@ AllDone == \A c \in Clients : cl[c].pc = "done"
 
 Next ==
   \/ \E c \in Clients :
-       \/ ConsumeCall(c) \/ JoinScripted(c) \/ JoinGenuine(c) \/ SyncScripted(c) \/ SyncGenuine(c) \/ SyncAbort(c)
+       \/ ConsumeCall(c) \/ JoinStale(c) \/ SyncStale(c) \/ TrigMove(c, TRUE) \/ TrigMove(c, FALSE) \/ JoinScripted(c) \/ JoinGenuine(c) \/ SyncScripted(c) \/ SyncGenuine(c) \/ SyncAbort(c)
        \/ SetupEnter(c) \/ SetupExit(c) \/ Watcher(c) \/ Release(c) \/ CleanupExit(c)
        \/ AutoCommit(c) \/ FinalCommit(c) \/ HbStop(c) \/ RetErr(c) \/ HbGenuine(c)
        \/ TrigCancel(c) \/ TrigClose(c) \/ TrigHb(c) \/ CloseNormal(c) \/ CloseLeave(c)
